@@ -22,6 +22,11 @@ so the next attempt is chained into the Deferred the serialized callable returne
 the operation's extent as `_do_serialized` sees it -- stays unfired until the last attempt ends
 (`Op.retry`, `Ev.retry`; the operation re-reads the contents at every attempt).
 
+Re-entrancy: the comment in `_do_serialized` says the callable "is *not* allowed to invoke other
+serialized methods within this (or any other) MutableFileNode".  `Op.innerReq i` is that case: the body
+of operation i (in progress) requests another serialized operation on the same node and makes its own
+result wait for it (`Core.inner`); `blocked` says whether the inner Deferred of an operation can fire.
+
 Deviation: the three `add…` calls are modelled as one append followed by one run (equivalent: the
 chain is only run when not paused, and running is idempotent on an empty chain).  Re-entrant calls
 of `_do_serialized` from inside a serialized callable are excluded (the code comment forbids them).
@@ -54,6 +59,7 @@ structure Core where
   log : List Ev := []
   content : List Nat := []               -- ids of modifiers applied so far, newest last (free monoid of edits)
   snap : List Nat := []                  -- what the running operation read when it started
+  inner : List (Nat × Nat) := []         -- (i, j): the body of operation i waits for operation j, requested from inside i
   deriving Repr
 
 structure St where
@@ -95,7 +101,22 @@ inductive Op
   | turn                         -- one turn of the eventual-send queue
   | retry (i : Nat)              -- the current attempt of operation i collides (UncoordinatedWriteError) and, after the
                                  -- backoff, `_retry` chains the next attempt into the operation's own Deferred
+  | innerReq (i : Nat)           -- the body of operation i calls `_do_serialized` on its own node and waits for the result
   deriving Repr
+
+/-- has operation `j` produced its result? -/
+def finishedIn (log : List Ev) (j : Nat) : Bool :=
+  log.any (fun e => match e with | .finish j' _ => j' == j | _ => false)
+
+/-- the inner Deferred of operation `i` cannot fire yet: its body waits for an operation that has not finished -/
+def blocked (c : Core) (i : Nat) : Bool := c.inner.any (fun p => p.1 == i && !finishedIn c.log p.2)
+
+/-- the inner Deferred of operation i fires -/
+def finStep (s : St) (i : Nat) (r : Res) : St :=
+  if s.core.waiting = some i then
+    let c := commit s.core i r
+    kick { s with core := { c with waiting := none, cur := r, log := c.log ++ [.finish i r] } }
+  else s
 
 def step (s : St) : Op → St
   | .req sync =>
@@ -103,17 +124,20 @@ def step (s : St) : Op → St
     let c := { s.core with nextId := i + 1,
                            syncRes := match sync with | some r => (i, r) :: s.core.syncRes | none => s.core.syncRes }
     kick { core := c, chain := s.chain ++ [.start i, .handoff i, .logerr] }
-  | .fin i r =>
-    if s.core.waiting = some i then
-      let c := commit s.core i r
-      kick { s with core := { c with waiting := none, cur := r, log := c.log ++ [.finish i r] } }
-    else s
+  | .fin i r => if blocked s.core i then s else finStep s i r
   | .turn =>
     { s with core := { s.core with evq := [], log := s.core.log ++ s.core.evq.map (fun p => .deliver p.1 p.2) } }
   | .retry i =>
     if s.core.waiting = some i then
       -- the inner Deferred does not fire: the chain stays paused on operation i; the new attempt reads again
       { s with core := { s.core with log := s.core.log ++ [.retry i], snap := s.core.content } }
+    else s
+  | .innerReq i =>
+    if s.core.waiting = some i then
+      -- `_do_serialized` from inside the callable: the triple is appended behind the paused chain (nothing runs)
+      let j := s.core.nextId
+      { core := { s.core with nextId := j + 1, inner := (i, j) :: s.core.inner },
+        chain := s.chain ++ [.start j, .handoff j, .logerr] }
     else s
 
 def runOps (ops : List Op) : St := ops.foldl step {}
